@@ -176,6 +176,8 @@ def finish(bld, container_geom, lat_cell, fill_of_container, trcl=None,
     if bld.rng.random() < 0.25:
         bld.rng.shuffle(deck.cells)
         deck.tags.add('cells.unordered')
+    if bld.rng.random() < 0.3:
+        M.shuffle_options(deck, bld.rng)
     return deck
 
 
